@@ -419,6 +419,45 @@ int main(void){
     printf(" %%d", (st && config_setting_set_format(st, (unsigned short)f)) ? 1 : 0);
     config_destroy(&cf);
   }
+  /* typed lookups: stored type t = 0,2..6 (value 1 / 1.0 / "x" / true), requested kind k = int,int64,float,bool,string, auto-convert a */
+  printf("\nB GET_OK");
+  for(t = 0; t <= 8; ++t) for(f = 0; f < 5; ++f) for(a = 0; a <= 1; ++a){
+    config_t cf; config_setting_t *st; int ok = 0; int iv; long long lv; double dv; const char *sv;
+    config_init(&cf); config_set_option(&cf, CONFIG_OPTION_AUTOCONVERT, a);
+    st = config_setting_add(config_root_setting(&cf), "x", t);
+    if(st){
+      if(t == CONFIG_TYPE_INT) config_setting_set_int(st, 1); else if(t == CONFIG_TYPE_INT64) config_setting_set_int64(st, 1);
+      else if(t == CONFIG_TYPE_FLOAT) config_setting_set_float(st, 1.0); else if(t == CONFIG_TYPE_STRING) config_setting_set_string(st, "x");
+      else if(t == CONFIG_TYPE_BOOL) config_setting_set_bool(st, 1);
+      switch(f){
+      case 0: ok = config_setting_lookup_int(config_root_setting(&cf), "x", &iv); break;
+      case 1: ok = config_setting_lookup_int64(config_root_setting(&cf), "x", &lv); break;
+      case 2: ok = config_setting_lookup_float(config_root_setting(&cf), "x", &dv); break;
+      case 3: ok = config_setting_lookup_bool(config_root_setting(&cf), "x", &iv); break;
+      default: ok = config_setting_lookup_string(config_root_setting(&cf), "x", &sv); break;
+      }
+    }
+    printf(" %%d", ok ? 1 : 0);
+    config_destroy(&cf);
+  }
+  /* typed assignment of the value 1 / 1.0 / "x": success flag and the setting's type afterwards */
+  printf("\nN SET_RESULT");
+  for(t = 0; t <= 8; ++t) for(f = 0; f < 5; ++f) for(a = 0; a <= 1; ++a){
+    config_t cf; config_setting_t *st; int ok = 0;
+    config_init(&cf); config_set_option(&cf, CONFIG_OPTION_AUTOCONVERT, a);
+    st = config_setting_add(config_root_setting(&cf), "x", t);
+    if(st){
+      switch(f){
+      case 0: ok = config_setting_set_int(st, 1); break;
+      case 1: ok = config_setting_set_int64(st, 1); break;
+      case 2: ok = config_setting_set_float(st, 1.0); break;
+      case 3: ok = config_setting_set_bool(st, 1); break;
+      default: ok = config_setting_set_string(st, "x"); break;
+      }
+    }
+    printf(" %%d", (ok ? 100 : 0) + (st ? config_setting_type(st) : 99));
+    config_destroy(&cf);
+  }
   /* config_set_tab_width / config_set_float_precision over all unsigned short arguments */
   { config_t cf; int w; config_init(&cf);
     printf("\nV TAB_WIDTH");
@@ -461,6 +500,9 @@ def function_tables():
                     continue
                 if p[0] == 'B':
                     tabs[p[1]] = [int(x) for x in p[2:]]
+                elif p[0] == 'N':
+                    nums = [int(x) for x in p[2:]]
+                    tabs[p[1]] = nums
                 elif p[0] == 'V':
                     # compress the full value table into maximal segments (lo, hi, identity?, constant)
                     v = [int(x) for x in p[2:]]
@@ -497,9 +539,12 @@ def function_tables():
         ('TYPE_AGGREGATE', 'typeAggregateTable', '`config_setting_is_aggregate` of a setting of type t = 0..8'),
         ('TYPE_NUMBER', 'typeNumberTable', '`config_setting_is_number` of a setting of type t = 0..8'),
         ('ARRAY_ADD', 'arrayAddTable', '`config_setting_add(array, NULL, t) != NULL` for an empty array (row 0) and an array whose first element has type 2..6 (rows 1..5); 9 columns t = 0..8'),
-        ('FORMAT_OK', 'formatOkTable', '`config_setting_set_format(setting of type t, f)`, row t = 0..8, column f = 0..3')]:
+        ('FORMAT_OK', 'formatOkTable', '`config_setting_set_format(setting of type t, f)`, row t = 0..8, column f = 0..3'),
+        ('GET_OK', 'getOkTable', 'result of `config_setting_lookup_<k>` on a member of type t holding 1 / 1.0 / "x" / true: index (t*5 + k)*2 + auto, t = 0..8, k = int,int64,float,bool,string')]:
         L.append('/-- %s -/' % doc)
         L.append('def %s : List Bool := [%s]' % (lname, ', '.join('true' if b else 'false' for b in tabs.get(key, []))))
+    L.append('/-- `config_setting_set_<k>(setting of type t, 1 / 1.0 / "x")`: 100·success + type afterwards, index (t*5 + k)*2 + auto -/')
+    L.append('def setResultTable : List Nat := [%s]' % ', '.join(map(str, tabs.get('SET_RESULT', []))))
     for key, lname, doc in [('TAB_WIDTH', 'tabWidthSegs', '`config_set_tab_width(w)` then `config_get_tab_width`, for EVERY unsigned short `w`, as maximal segments (lo, hi, identity?, constant): on lo..hi the result is `w` itself or the constant'),
                             ('FLOAT_PRECISION', 'floatPrecisionSegs', '`config_set_float_precision(p)` then the getter, for every unsigned short `p`, same encoding')]:
         L.append('/-- %s -/' % doc)
